@@ -67,11 +67,16 @@ func (pe *PolicyEngine) getPeerNamespaceObject(podObj *k8s.Pod) (*k8s.Namespace,
 // looking for 2 different pod instances, if exist (to avoid the trivial case of connectivity from pod to itself)
 func (pe *PolicyEngine) changePodPeerToAnotherPodObject(peer *k8s.PodPeer) {
 	// look for another pod, different from peer.Pod, with the same owner
+	// (the first one by name, so the choice does not depend on map iteration order)
+	var otherPod *k8s.Pod
 	for _, pod := range pe.podsMap {
-		if pod.Namespace == peer.Pod.Namespace && pod.Name != peer.Pod.Name && pod.Owner.Name == peer.Pod.Owner.Name {
-			peer.Pod = pod
-			break
+		if pod.Namespace == peer.Pod.Namespace && pod.Name != peer.Pod.Name && pod.Owner.Name == peer.Pod.Owner.Name &&
+			(otherPod == nil || pod.Name < otherPod.Name) {
+			otherPod = pod
 		}
+	}
+	if otherPod != nil {
+		peer.Pod = otherPod
 	}
 }
 
